@@ -1,0 +1,88 @@
+// Copyright 2025 UnoDB contributors
+#ifndef UNODB_DETAIL_VERIF_HOOKS_HPP
+#define UNODB_DETAIL_VERIF_HOOKS_HPP
+
+/// \file
+/// Optional instrumentation hooks for external runtime-verification
+/// harnesses.
+///
+/// Everything in this header, and every use of it elsewhere, is compiled only
+/// when UNODB_DETAIL_VERIF_HOOKS is defined. A hook is an inline function
+/// pointer slot that is null by default: a hook-enabled binary in which no
+/// harness installed a callback behaves exactly like a plain build. No hook
+/// reads or writes library state; callbacks receive a kind and an address.
+
+#ifdef UNODB_DETAIL_VERIF_HOOKS
+
+#include <atomic>
+#include <cstddef>
+
+namespace unodb::verif {
+
+/// Kinds of scheduling points. A scheduling point precedes the shared-memory
+/// access it names.
+enum sched_kind : int {
+  LOCK_LOAD_ACQ = 0,
+  LOCK_LOAD_RLX = 1,
+  LOCK_CAS = 2,
+  LOCK_UNLOCK = 3,
+  LOCK_OBSOLETE = 4,
+  FIELD_LOAD = 5,
+  FIELD_STORE = 6,
+  QSBR_STATE_LOAD = 7,
+  QSBR_STATE_CAS = 8,
+  QSBR_STATE_FETCH_SUB = 9,
+  ORPHAN_LOAD = 10,
+  ORPHAN_CAS = 11,
+  ORPHAN_XCHG = 12,
+  SPIN = 13,
+  RESTART = 14,
+  ORPHAN_TAIL_STORE = 15,
+  SCHED_KIND_COUNT = 16
+};
+
+/// Rare protocol landmarks. Used by harnesses only to classify a violation
+/// that an oracle has already decided, never to decide one.
+enum event_kind : int {
+  EV_ORPHANS_AGED_IN_UNREGISTER = 0,
+  EV_UNREGISTER_CAS_LOST_AFTER_AGING = 1,
+  EV_PREPEND_ON_SIBLING = 2,
+  EV_EPOCH_ADVANCED = 3,
+  EVENT_KIND_COUNT = 4
+};
+
+using sched_fn = void (*)(int kind, const void* addr) noexcept;
+using alloc_fn = void (*)(void* ptr, std::size_t size) noexcept;
+using dealloc_fn = void (*)(void* ptr) noexcept;
+using event_fn = void (*)(int kind, const void* addr) noexcept;
+
+inline std::atomic<sched_fn> on_sched{nullptr};
+inline std::atomic<alloc_fn> on_alloc{nullptr};
+inline std::atomic<dealloc_fn> on_dealloc{nullptr};
+inline std::atomic<event_fn> on_event{nullptr};
+
+inline void sched(int kind, const void* addr) noexcept {
+  const auto fn = on_sched.load(std::memory_order_relaxed);
+  if (fn != nullptr) fn(kind, addr);
+}
+
+inline void alloc(void* ptr, std::size_t size) noexcept {
+  const auto fn = on_alloc.load(std::memory_order_relaxed);
+  if (fn != nullptr) fn(ptr, size);
+}
+
+inline void dealloc(void* ptr) noexcept {
+  const auto fn = on_dealloc.load(std::memory_order_relaxed);
+  if (fn != nullptr) fn(ptr);
+}
+
+inline void event(int kind, const void* addr) noexcept {
+  const auto fn = on_event.load(std::memory_order_relaxed);
+  if (fn != nullptr) fn(kind, addr);
+}
+
+}  // namespace unodb::verif
+
+#endif  // UNODB_DETAIL_VERIF_HOOKS
+
+#endif  // UNODB_DETAIL_VERIF_HOOKS_HPP
